@@ -41,9 +41,9 @@ def _maybe_rename_grid_positions(grid, arr_source, arr_target):
 def _maybe_swap_dimension_names(da, from_name, to_name):
     # renames 1D slices and swaps dimension names for higher dimensional slices
     if to_name in da.dims:
-        # temporary name that no dimension of the array already carries
+        # temporary name that no dimension or coordinate of the array already carries
         tmp_name = to_name + "dummy"
-        while tmp_name in da.dims:
+        while tmp_name in da.dims or tmp_name in da.coords:
             tmp_name += "_"
         da = da.rename({to_name: tmp_name})
         if from_name in da.dims:
